@@ -115,7 +115,7 @@ def gen_case(rng, tier, idx):
     for _ in range(20):
         levels = [gen_level(rng) for _ in range(rng.choice([1, 1, 2, 2, 3]))]
         queries.append({"levels": levels, "deep": rng.random() < 0.5, "roots": rng.random() < 0.3,
-                        "via": rng.choice(["select", "select", "find", "getitem", "result_select", "result_getitem", "component"])})
+                        "via": rng.choice(["select", "select", "find", "getitem", "result_select", "result_getitem", "component", "result_two_docs"])})
     case = {"tree": tree, "queries": queries, "from_dict": rng.random() < 0.25}
     if rng.random() < 0.4:
         # predicates built up from shared bases: base = a & b (or a | b) is combined with further leaves in several queries
@@ -413,6 +413,17 @@ def run_case(spec, ctx):
                 levels, rq = levels[:1], rq[:1]
                 deep, roots = False, False
                 got = (top[rq[0]] if levels[0][0] != "tuple" or True else None).children
+            elif via == "result_two_docs":
+                # a Result whose children come from two documents, interleaved (what a combiner over several files holds)
+                real2, refs2 = build_tree(spec["tree"])
+                top2 = Entry(children=real2)
+                inter_real, start = [], []
+                for x1, x2 in zip(refs, refs2):
+                    inter_real.extend([x1[3], x2[3]])
+                    start.extend(list(x1[2]) + list(x2[2]))       # a Result is queried below its children
+                res = Result(children=inter_real)
+                got = res.select(*rq, deep=deep, roots=roots).children
+                ctx.count("queries_over_two_interleaved_documents")
             elif via == "result_select":
                 res = Result(children=list(top.children))
                 start = [c for n in refs for c in n[2]]
